@@ -1962,8 +1962,6 @@ func (d *decoderJsonBytes) kSlice(f *decFnInfo, rv reflect.Value) {
 				rv, rvCanset = rvMakeSlice(rv, f.ti, rvlen, rvlen)
 				rvcap = rvlen
 				rvChanged = !rvCanset
-			} else {
-				halt.errorStr("cannot decode into non-settable slice")
 			}
 			if rvChanged && oldRvlenGtZero && rtelem0Mut {
 				rvCopySlice(rv, rv0, rtelem)
@@ -2015,20 +2013,21 @@ func (d *decoderJsonBytes) kSlice(f *decFnInfo, rv reflect.Value) {
 		}
 
 		if j >= rvlen {
+			if !(rvCanset || rvChanged) {
+
+				d.arrayCannotExpand(rvlen, j+1)
+				d.swallow()
+				continue
+			}
 
 			if rvlen < rvcap {
 				rvlen = rvcap
 				if rvCanset {
 					rvSetSliceLen(rv, rvlen)
-				} else if rvChanged {
-					rv = rvSlice(rv, rvlen)
 				} else {
-					halt.onerror(errExpandSliceCannotChange)
+					rv = rvSlice(rv, rvlen)
 				}
 			} else {
-				if !(rvCanset || rvChanged) {
-					halt.onerror(errExpandSliceCannotChange)
-				}
 				rv, rvcap, rvCanset = rvGrowSlice(rv, f.ti, rvcap, 1)
 
 				rvlen = rvcap
@@ -6154,8 +6153,6 @@ func (d *decoderJsonIO) kSlice(f *decFnInfo, rv reflect.Value) {
 				rv, rvCanset = rvMakeSlice(rv, f.ti, rvlen, rvlen)
 				rvcap = rvlen
 				rvChanged = !rvCanset
-			} else {
-				halt.errorStr("cannot decode into non-settable slice")
 			}
 			if rvChanged && oldRvlenGtZero && rtelem0Mut {
 				rvCopySlice(rv, rv0, rtelem)
@@ -6207,20 +6204,21 @@ func (d *decoderJsonIO) kSlice(f *decFnInfo, rv reflect.Value) {
 		}
 
 		if j >= rvlen {
+			if !(rvCanset || rvChanged) {
+
+				d.arrayCannotExpand(rvlen, j+1)
+				d.swallow()
+				continue
+			}
 
 			if rvlen < rvcap {
 				rvlen = rvcap
 				if rvCanset {
 					rvSetSliceLen(rv, rvlen)
-				} else if rvChanged {
-					rv = rvSlice(rv, rvlen)
 				} else {
-					halt.onerror(errExpandSliceCannotChange)
+					rv = rvSlice(rv, rvlen)
 				}
 			} else {
-				if !(rvCanset || rvChanged) {
-					halt.onerror(errExpandSliceCannotChange)
-				}
 				rv, rvcap, rvCanset = rvGrowSlice(rv, f.ti, rvcap, 1)
 
 				rvlen = rvcap
